@@ -80,6 +80,10 @@ def run(ctx):
         ctx.check(have == lit, R2, "%s is the container's name for that stream" % cn_, repr(have), "%s is %r; compound files name that stream %r: the library would look for (and write) "
                   "the summary / signature under a name no other tool uses" % (cn_, have, lit), key="%s|const|%s" % (R2, cn_))
     f = prog.fn("msi::<internal::stream::Streams<'a, F> as std::iter::Iterator>::next")
+    if not any(cname(prog, t) == SN + "decode" for b, t in f.calls()):
+        # the filter lives in a closure handed to find_map / find: read it as the loop it stands for
+        from ..inline import expand_view
+        f = expand_view(prog, f)
     S = Sym(prog, f)
     cs = symcalls(prog, f, S)
     eqs = [c for c in cs if c[1].endswith("::eq") and "Entry::name(" in c[2][0]]
@@ -89,7 +93,8 @@ def run(ctx):
     memb = [c for c in cs if c[1].endswith("<impl [T]>::contains") and len(c[2]) == 2 and "Entry::name(" in c[2][1]]
     for cname_, k in sorted(consts.items()):
         lit = k["lit"]
-        inm = [c for c in memb if ("s:%r" % lit) in c[2][0] or lit in c[2][0]]
+        from ..lib import deep_strs as _ds
+        inm = [c for c in memb if ("s:%r" % lit) in c[2][0] or lit in c[2][0] or lit in _ds(S, c[2][0])]
         if inm and dec:
             g = any(tr is False and re.search(r"call@%d:|<impl \[T\]>::contains\(" % inm[0][0], e) for (e, tr, gg) in S.bool_facts_at(dec[0][0]))
             ctx.check(g, R2, "listing skips %s" % cname_, "member of the reserved-name array; yield on the `not contained` edge",
@@ -113,10 +118,13 @@ def run(ctx):
             continue
         for s in bl["stmts"]:
             r = s["rhs"]
-            if s["lhs"]["l"] == 0 and r["rv"] == "agg" and r.get("variant") == "Some":
+            if r["rv"] == "agg" and r.get("variant") == "Some" and (s["lhs"]["l"] == 0 or any("streamname::decode" in S.val(o) for o in r.get("ops", []))):
                 facts = S.bool_facts_at(bl["id"])
                 if any("streamname::decode" in e and e.endswith(".1") and tr is False for (e, tr, g) in facts):
                     ok = True
+                elif any("streamname::decode" in S.val(o) for o in r.get("ops", [])):
+                    ok = False
+                    break
     ctx.check(ok, R2, "listing skips table streams", "Some(name) only under !is_table", "Streams::next yields a name without testing decode()'s is_table result", f.loc(), fn=f.name)
 
     # the listing walks the root storage only (not recursively): entries inside sub-storages are not package streams and no other stream API can reach them
@@ -178,7 +186,7 @@ def name_limit(ctx, R1="NAME-1"):
     sw = [c for c in cs if c[1].endswith("<impl str>::starts_with")]
     em = [c for c in cs if c[1].endswith("<impl str>::is_empty")]
     en = [c for c in cs if c[1] == SN + "encode"]
-    cmpc = [S.val(o) for bl in f.blocks if not bl["cleanup"] for s in bl["stmts"] if s["rhs"]["rv"] == "bin" and s["rhs"]["op"] in ("Le", "Lt") for o in s["rhs"]["ops"]]
+    cmpc = [S.val(o) for bl in f.blocks if not bl["cleanup"] for s in bl["stmts"] if s["rhs"]["rv"] == "bin" and s["rhs"]["op"] in ("Le", "Lt", "Ge", "Gt") for o in s["rhs"]["ops"]]
     from ..lib import exceeds_facts
     lim, counted = None, None
     for bl in f.blocks:
@@ -350,28 +358,57 @@ def b64_tables(ctx, rule="B64-TABLE"):
             out_ += _expand(S._def_val(d_, int(m_.group(1)), 0), depth + 1)
         return out_ or [v]
     fu = [y for x in fu for y in _expand(x)]
-    pair = [x for x in fu if re.fullmatch(r"\(\(c:14336 Add! \(call@(\d+):internal::streamname::to_b64@Some\.0 Shl c:6\)\)\.0 Add! call@(\d+):internal::streamname::to_b64@Some\.0\)\.0", x)]
-    single = [x for x in fu if re.fullmatch(r"\(c:18432 Add! call@\d+:internal::streamname::to_b64@Some\.0\)\.0", x)]
-    okp = len(pair) == 1 and len(single) == 1 and len(fu) == 2
-    if not pair and len(single) == 1 and len(fu) == 2:
-        # the second character's value obtained as chars.peek().and_then(|&c| to_b64(c))
-        from ..lib import lifted_closures
-        alt = [x for x in fu if re.fullmatch(r"\(\(c:14336 Add! \(call@(\d+):std::option::Option::<T>::and_then@Some\.0 Shl c:6\)\)\.0 Add! call@(\d+):internal::streamname::to_b64@Some\.0\)\.0", x)]
-        if len(alt) == 1:
-            m = re.fullmatch(r"\(\(c:14336 Add! \(call@(\d+):.*Shl c:6\)\)\.0 Add! call@(\d+):.*", alt[0])
-            at, lo = int(m.group(1)), int(m.group(2))
-            recv = S.val(f.blocks[at]["term"]["args"][0])
-            clos = [L for L in lifted_closures(prog, f, S) if L.call_block == at and any(cname(prog, t) == SN + "to_b64" and re.fullmatch(r"[&*]*p2", L.SC.val(t["args"][0])) for b, t in L.fn.calls())]
-            lo_arg = S.val(f.blocks[lo]["term"]["args"][0])
-            okp = "peek" in recv and len(clos) == 1 and "Iterator>::next@Some.0" in lo_arg
-            pair = []
-    elif okp:
-        m = re.fullmatch(r"\(\(c:14336 Add! \(call@(\d+):.*Shl c:6\)\)\.0 Add! call@(\d+):.*", pair[0])
-        hi, lo = int(m.group(1)), int(m.group(2))
-        # lo comes from the current char (next), hi from the peeked following char
-        lo_arg = S.val(f.blocks[lo]["term"]["args"][0])
-        hi_arg = S.val(f.blocks[hi]["term"]["args"][0])
-        okp = "Iterator>::next@Some.0" in lo_arg and "peek@Some.0" in hi_arg
+    from ..sym import split_bin
+
+    def _terms(v):
+        # the summands of a (checked or plain) sum, in any nesting and order
+        core = v[:-2] if v.endswith(").0") else v
+        sb = split_bin(core)
+        if sb and sb[1] in ("Add!", "Add"):
+            return _terms(sb[0]) + _terms(sb[2])
+        return [v]
+
+    def _b64_source(term):
+        """'cur' / 'peek' when the term is the Some payload of to_b64 applied to the current / the peeked character (directly, through and_then, or through
+        the result local of an expanded and_then)"""
+        m_ = re.fullmatch(r"(.*)@Some\.0", term)
+        if not m_:
+            return None
+        srcs = []
+        for y in _expand(m_.group(1)):
+            mc = re.fullmatch(r"call@(\d+):internal::streamname::to_b64", y)
+            if mc:
+                srcs.append(S.val(f.blocks[int(mc.group(1))]["term"]["args"][0]))
+                continue
+            ma = re.fullmatch(r"call@(\d+):std::option::Option::<T>::and_then", y)
+            if ma:
+                from ..lib import lifted_closures
+                at = int(ma.group(1))
+                recv = S.val(f.blocks[at]["term"]["args"][0])
+                fn_arg = S.val(f.blocks[at]["term"]["args"][1])
+                via = fn_arg.endswith("streamname::to_b64") or any(L.call_block == at and any(cname(prog, t) == SN + "to_b64" for b, t in L.fn.calls()) for L in lifted_closures(prog, f, S))
+                if via:
+                    srcs.append(recv)
+                continue
+            if y.startswith("std::option::Option::None") or "Option::None" in y:
+                continue
+            return None
+        if len(srcs) != 1:
+            return None
+        return "peek" if "peek" in srcs[0] else ("cur" if "Iterator>::next@Some.0" in srcs[0] else None)
+    forms = []
+    for x in fu:
+        ts = _terms(x)
+        consts_ = sorted(t_ for t_ in ts if re.fullmatch(r"c:\d+", t_))
+        shl = [t_ for t_ in ts if re.fullmatch(r"\(.* Shl c:6\)", t_)]
+        plain = [t_ for t_ in ts if t_ not in consts_ and t_ not in shl]
+        if consts_ == ["c:14336"] and len(shl) == 1 and len(plain) == 1:
+            forms.append(("pair", _b64_source(shl[0][1:-len(" Shl c:6)")]), _b64_source(plain[0])))
+        elif consts_ == ["c:18432"] and not shl and len(plain) == 1:
+            forms.append(("single", None, _b64_source(plain[0])))
+        else:
+            forms.append(("other", None, None))
+    okp = sorted(forms, key=str) == sorted([("pair", "peek", "cur"), ("single", None, "cur")], key=str)
     ctx.check(okp, rule, "encode packing", "0x3800 + (next << 6) + current ; 0x4800 + current", "encode packs %s" % fu, f.loc(), fn=f.name, key=rule + "|encode")
     # no shortcut around the packing loop: every name, whatever it starts with, goes through it (container-level names such as "\\x05SummaryInformation"
     # must come out different from the real special streams)
@@ -411,6 +448,9 @@ def b64_tables(ctx, rule="B64-TABLE"):
     ctx.check(len(marker) == 1 and has_fact(S, marker[0] and [b for b, n, a, t in cs if n.endswith("String::push") and a[1] == "c:18496"][0], r"^p2$", True), rule, "table marker U+4840 only for tables", "",
               "encode does not push U+4840 exactly when is_table", f.loc(), fn=f.name, key=rule + "|marker")
     f = prog.fn(SN + "decode")
+    if not any(cname(prog, t) == SN + "from_b64" for b, t in f.calls()):
+        from ..inline import expand_view
+        f = expand_view(prog, f)
     S = Sym(prog, f)
     cs = symcalls(prog, f, S)
     fbc = [(b, a[0]) for b, n, a, t in cs if n == SN + "from_b64"]
